@@ -289,6 +289,8 @@ class Run:
     fn = frame.f_code.co_filename
     env = self.env
     if fn in env.anchor_files:
+      if frame.f_code.co_name in ACCESSORS:
+        return None      # one-line accessor: executes atomically with the statement that calls it
       self.sched.yield_point(tid, False)
       return self.local_trace
     if fn == env.object_file and frame.f_code.co_name == '__setattr__':
@@ -296,9 +298,9 @@ class Run:
       if back is not None and back.f_code.co_filename in env.anchor_files:
         site = env.site_by_line.get((back.f_code.co_filename, back.f_lineno))
         if site is not None and site['stmt'] == 'aug':
-          hot = True
-          self.sched.yield_point(tid, hot, site['kind'] + '.w')
-          self.raw.append({'w': tid, 'k': site['kind'] + '.w', 'held': list(self.held[tid])})
+          inner = '.inner' if (site['cls'] == 'DNAGenerator' and back.f_locals.get('self') is not self.algo) else ''
+          self.sched.yield_point(tid, True, site['kind'] + '.w' + inner)
+          self.raw.append({'w': tid, 'k': site['kind'] + '.w' + inner, 'held': list(self.held[tid])})
     return None
 
   def local_trace(self, frame, event, arg):
@@ -316,6 +318,8 @@ class Run:
     if site is None or dup:
       self.sched.yield_point(tid, False)
       return self.local_trace
+    if site['cls'] == 'DNAGenerator' and frame.f_locals.get('self') is not self.algo:
+      kind = kind + '.inner'          # a generator nested inside the algorithm (Evolution's initialiser)
     hot = True          # every shared access is a candidate preemption point
     if kind == 'next.active':
       self.sched.ctor_done[tid] = True
@@ -473,7 +477,13 @@ SINGLE = {
     'ct.check': 'ctCheck', 'ct.new': 'ctNew', 'ct.append': 'ctAppend', 'ct.latest': 'ctLatest',
     'cp.infeasible': 'cpInf', 'cp.bestwrite': 'cpBestW', 'end.set': 'endLoop',
 }
-IGNORED = {'goc.new', 'next.create', 'next.ret', 'done.hasmeas', 'done.feedback', 'done.meta', 'done.complete',
+ACCESSORS = {'is_active', 'get_latest_trial', 'next_trial_id', 'dna_spec', 'id', 'dna', 'get_trial', 'status',
+             'needs_feedback', 'multi_objective', 'num_proposals', 'num_feedbacks', 'metadata', 'last_updated',
+             'best_trial', 'trials', 'population', 'global_state', 'num_generations',
+             'checkpoint_to_warm_start_from'}
+
+IGNORED = {'pr.call.inner', 'pr.count.inner', 'pr.count.w.inner', 'fb.call.inner', 'fb.count.inner',
+           'fb.count.w.inner', 'goc.new', 'next.create', 'next.ret', 'done.hasmeas', 'done.feedback', 'done.meta', 'done.complete',
            'bf.reward', 'bf.call', 'fb.call', 'pr.call', 'pr.count', 'pr.count.w', 'skip.infeasible', 'skip.final',
            'skip.complete', 'cp.inftest', 'cp.besttest', 'cp.time', 'user', 'user.valueerror',
            'ct.pending.w', 'cp.completed.w', 'cp.pending.w', 'cp.infeasible.w'}
@@ -619,6 +629,7 @@ class Env:
       kind = t_c16.module_locks(__import__('ast').parse(open(os.path.join(root, t_c16.LB)).read()))[name]
       setattr(local_backend, name, CoopLock('registry', kind == 'RLock'))
     self.spec = pg.dna_spec(pg.oneof(list(range(8))))
+    self.check_accessors(root)
 
     class Rec(pg.DNAGenerator):
       """Needs feedback; records what it is told."""
@@ -638,6 +649,17 @@ class Env:
         return trial.measurements[-1].reward < 3.0
 
     self.Rec, self.StopBelow = Rec, StopBelow
+
+  def check_accessors(self, root):
+    """Every function of an anchor file named in ACCESSORS must be a single `return <expr>`."""
+    import ast    # pylint: disable=import-outside-toplevel
+    for rel in ANCHOR_RELS:
+      tree = ast.parse(open(os.path.join(root, rel)).read())
+      for n in ast.walk(tree):
+        if isinstance(n, ast.FunctionDef) and n.name in ACCESSORS:
+          body = [b for b in n.body if not (isinstance(b, ast.Expr) and isinstance(b.value, ast.Constant))]
+          if len(body) > 1 or (body and not isinstance(body[0], (ast.Return, ast.Pass))):
+            raise framework.InfraError('%s: %s is treated as an atomic accessor but is not a one-liner' % (rel, n.name))
 
   def make_algo(self, kind):
     pg = self.pg
